@@ -295,7 +295,11 @@ def get_max_advance(world: World, sim: SimRunner, until: int) -> int:
     """
     ancs_next_steps: List[Time] = []
     for anc_sim, distance in sim.triggering_ancestors.items():
-        if anc_sim.next_steps:
+        if anc_sim.current_step is not None and anc_sim is not sim:
+            # The ancestor is performing a step right now. Its output
+            # might still trigger us.
+            ancs_next_steps.append((anc_sim.current_step + distance).time)
+        elif anc_sim.next_steps:
             ancs_next_steps.append((anc_sim.next_steps[0] + distance).time)
 
     own_next_step = [sim.next_steps[0].time] if sim.next_steps else []
@@ -462,11 +466,15 @@ def get_avg_progress(sims: Dict[SimId, SimRunner], until: int) -> int:
 
 
 def advance_progress(sim: SimRunner, world: World):
-    pre_sim_induced_progress: List[TieredTime] = [
-        pre_sim.next_steps[0] + distance
-        for pre_sim, distance in sim.triggering_ancestors.items()
-        if pre_sim.next_steps
-    ]
+    pre_sim_induced_progress: List[TieredTime] = []
+    for pre_sim, distance in sim.triggering_ancestors.items():
+        if pre_sim.current_step is not None:
+            # The ancestor is performing a step right now (so that step
+            # is not part of its next_steps anymore). Its output might
+            # still trigger us.
+            pre_sim_induced_progress.append(pre_sim.current_step + distance)
+        elif pre_sim.next_steps:
+            pre_sim_induced_progress.append(pre_sim.next_steps[0] + distance)
 
     next_step_progress: List[TieredTime] = [sim.next_steps[0]] if sim.next_steps else []
     current_step_prog = [sim.current_step] if sim.current_step else []
